@@ -279,7 +279,7 @@ def kid_fix(text):
 
 
 def run(ck):
-    ck.prove(["Properties_C17", "SrcRun6"], THEOREMS)   # + Properties_SrcCli / SRC_cli_parse once re-proved for the repaired getopts.cpp (fix c800d69)   # SrcRun6: the translated whole program the vectors are also run on
+    ck.prove(["Properties_C17", "Properties_SrcCli", "SrcRun6"], THEOREMS + ["SRC_cli_parse"])   # SrcRun6: the translated whole program the vectors are also run on
     exe = ck.impl_driver(kind="cli")
     ck.impl_flags = "-DWENCRY_VERIF -DOPT_ON (main.cpp + valget + kernel of /repo, production constants)"
     mdrv = ck.model_driver()
